@@ -122,6 +122,23 @@ def run_gossip(work, tier, seed, verdict):
             "abstract_envelopes_without_concrete_counterpart": skipped, "rejected_lines": len(rejs)}
 
 
+def crashed(prop, tier, c, t0, mc_states, mc_trans, n):
+    """The whole test process died from a panic in the package under test (typically in a goroutine the code itself
+    spawned, which no recover() of the harness can reach).  For C13 that is the violation itself; the other
+    properties cannot be decided on a process that dies, and say so."""
+    if prop != "C13":
+        raise vlib.Broken("the processor process crashed (%s); ./check C13 reports this as a violation\n%s" % (c.sig, c.tail[-1500:]))
+    verdict = vlib.Verdict(prop)
+    verdict.add(c.sig, {"why": "unrecovered panic killed the process while replaying histories", "output_tail": c.tail})
+    rc = verdict.finish()
+    vlib.write_evidence(prop, tier, "model_checking",
+                        {"states": max(mc_states, 1), "transitions": max(mc_trans, 1), "traces_validated_against_impl": 0,
+                         "samples": [{"crash": c.sig}], "evaluations": 1, "distinct_nontrivial": 2,
+                         "rule": "the replay process died; no trace could be validated", "histories_planned": n},
+                        ASSUME, time.time() - t0, getattr(verdict, "n_unknown", 0))
+    return rc
+
+
 def run(prop, tier, replay=None):
     t0 = time.time()
     work = vlib.scratch(prop)
@@ -147,7 +164,10 @@ def run(prop, tier, replay=None):
         for prof, n in gens:
             scenarios += fp.gen_scenarios(seed, n, prof)
     # 3. the real handlers
-    lines, wall = fp.replay(work, scenarios, prop)
+    try:
+        lines, wall = fp.replay(work, scenarios, prop)
+    except fp.Crash as c:
+        return crashed(prop, tier, c, t0, mc_states, mc_trans, len(scenarios))
     slow = {ln["t"] for ln in lines if ln["ev"] == "Slow"}
     if slow:
         lines = [ln for ln in lines if ln["t"] not in slow]
@@ -158,7 +178,10 @@ def run(prop, tier, replay=None):
     # 5. the same histories through the real Processor.Run select loop (inputs sent on its channels, own
     #    signatures looped back by the code itself); every third history in the quick tier
     loop_scs = scenarios if (replay or tier == "thorough") else scenarios[::3]
-    llines, lwall = fp.replay(work, loop_scs, prop + "L", runloop=True)
+    try:
+        llines, lwall = fp.replay(work, loop_scs, prop + "L", runloop=True)
+    except fp.Crash as c:
+        return crashed(prop, tier, c, t0, mc_states, mc_trans, len(scenarios))
     lslow = {ln["t"] for ln in llines if ln["ev"] == "Slow"}
     llines = [ln for ln in llines if ln["t"] not in lslow]
     lrejs, lr = fp.validate(work, llines, prop + "L")
